@@ -11,7 +11,11 @@ import re
 import shutil
 from concurrent.futures import ThreadPoolExecutor
 
+import sys
 import vlib
+
+sys.path.insert(0, os.path.dirname(os.path.abspath(__file__)))
+import part_C02_engine as eng  # noqa: E402
 
 LEVEL = "proof"
 PROPS = "Formats/Props_C02.v"
@@ -51,7 +55,11 @@ META = {
                  "extractor models (apk installed, gradle.lockfile, Gemfile.lock, dpkg status), engine-confinement theorem when present; everything else by SEARCH: a recover-and-watchdog fuzz "
                  "harness over all offline built-in extractors (structure-aware mutations, per-call deadline, memory-limited workers)",
     "level_text": "PROVED: (a) engine confinement (Walk/Props_C02_engine.v, only when that file is present in the tree: a failing Extract "
-                  "changes only that extractor's status and its contribution from that file); (b) totality of the byte-level parser models "
+                  "changes only that extractor's status and its contribution from that file), tied to the code on every run by the engine "
+                  "stream: generated trees with 2-4 fake extractors requiring the same files, one of them failing / returning partial "
+                  "results / panicking, run through the real filesystem.Run and scalibr.Scan, compared with Walk.Model (vm_compute) and with "
+                  "the counterfactual run in which the failing extractor succeeds (identical calls, packages and statuses of all other "
+                  "extractors), plus real built-in extractors over a tree with corrupt files next to healthy ones; (b) totality of the byte-level parser models "
                   "in Formats/Props_C02.v - currently 5: apk installed, gradle.lockfile, Gemfile.lock, dpkg status, requirements.txt (the evidence lists the "
                   "<F>_total theorems actually compiled by the run) - for ALL byte strings: the model never reaches Panic, and terminates by "
                   "structural recursion. NOT PROVED, only searched: the other ~53 extractors (JSON/TOML/XML/YAML/sqlite/bolt/ELF/PE/zip/"
@@ -141,6 +149,67 @@ def witness_case(w):
 
 
 # ------------------------------------------------------------------------------------------ run
+def engine_part(ctx, thorough, all_pa):
+    es = eng.engine_stream(ctx, 400 if thorough else 60)
+    if es.get("build_failed"):
+        ctx.violation({"kind": "harness-build-failed", "log": es["build_failed"][-3000:], "correspondence": eng.CORR_NAME,
+                       "theorems_no_longer_tied_to_code": eng.THEOREMS}, nofail=True)
+    else:
+        pairs, flat = es["pairs"], es["flat"]
+        for i, probs in es["oracle_bad"][:3]:
+            F, S, meta = pairs[i]
+            cf_, fo, cs_, so = es["results"][i]
+            ctx.violation({"kind": "engine-confinement-violated", "engine_case": dict(F, obs=fo), "counterfactual_case": dict(S, obs=so),
+                           "meta": meta, "problems": probs,
+                           "explanation": "filesystem.Run / scalibr.Scan were run on this tree with these (fake) extractors and again with "
+                                          "the failing extractor succeeding: other extractors' packages / statuses / calls differ, i.e. the "
+                                          "failure of one extractor on one file is not confined to that extractor"})
+        if es["corr_bad"] and not es["oracle_bad"]:
+            i = es["corr_bad"][0]
+            ctx.violation({"kind": "correspondence-broken", "correspondence": eng.CORR_NAME, "theorems_no_longer_tied_to_code": eng.THEOREMS,
+                           "first_mismatch": flat[i][0], "meta": flat[i][1], "which_run": flat[i][2], "mismatches": len(es["corr_bad"]),
+                           "explanation": "Walk.Model and the engine disagree on this multi-extractor case; the confinement oracle itself "
+                                          "found no failing pair"}, nofail=True)
+        modes, positions = {}, {}
+        seen = set()
+        for F, S, meta in pairs:
+            modes[meta["mode"]] = modes.get(meta["mode"], 0) + 1
+            key = "first" if meta["position"] == 0 else "last" if meta["position"] == meta["n_exts"] - 1 else "middle"
+            positions[key] = positions.get(key, 0) + 1
+            seen.add(vlib.sha([F["roots"], F["exts"], F["req"], F["extract"]]))
+        ctx.coverage["engine_stream"] = {
+            "pairs": len(pairs), "engine_runs": 2 * len(pairs), "distinct_pairs": len(seen), "model_mismatches": len(es["corr_bad"]),
+            "oracle_failures": len(es["oracle_bad"]), "failure_modes": modes, "failing_extractor_position": positions,
+            "rule": "a pair = one generated tree with 2..4 fake extractors requiring the same files, one of them returning an error / an "
+                    "error with partial results / panicking on >= 1 shared file, run through filesystem.Run and scalibr.Scan, plus the "
+                    "counterfactual run in which it succeeds; every run is compared with Walk.Model (vm_compute); non-panic pairs are "
+                    "judged by the counterfactual oracle (identical call sequence; identical packages and status of every other extractor)",
+            "sample": {"case": pairs[0][0], "meta": pairs[0][2], "observed": es["results"][0][1]},
+        }
+        ctx.log("engine stream: pairs=%d corr_bad=%d oracle_bad=%d" % (len(pairs), len(es["corr_bad"]), len(es["oracle_bad"])))
+    rs = eng.real_side_by_side(ctx, 120 if thorough else 30)
+    if rs.get("build_failed"):
+        ctx.violation({"kind": "harness-build-failed", "log": rs["build_failed"][-3000:],
+                       "explanation": "harness/cmd/engineconf does not build against this tree"}, nofail=True)
+        return
+    bad = [s for s in rs["scenarios"] if s["verdict"] == "violated"]
+    herr = [s for s in rs["scenarios"] if s["verdict"] == "harness-error"]
+    for s in bad[:3]:
+        ctx.violation({"kind": "engine-confinement-violated-real-extractors", "scenario": s, "problems": s["problems"],
+                       "explanation": "real built-in extractors over a small tree: a corrupt file / a failing extractor changed the packages "
+                                      "or the PluginStatus of another extractor compared with the repaired tree"})
+    if herr:
+        raise RuntimeError("engineconf harness error: " + str(herr[0]["problems"]))
+    ctx.coverage["real_extractors_side_by_side"] = {
+        "scenarios": len(rs["scenarios"]), "violated": len(bad),
+        "with_fake_failing_extractor_on_a_shared_file": len([s for s in rs["scenarios"] if s.get("fake_extractor_paths")]),
+        "with_corrupt_files": len([s for s in rs["scenarios"] if s.get("counterfactual_files")]),
+        "sample": {k: rs["scenarios"][1][k] for k in ("extractor_order", "extractors_expected_to_fail", "fake_extractor_paths", "run")
+                   if k in rs["scenarios"][1]} if len(rs["scenarios"]) > 1 else None,
+    }
+    ctx.log("real extractors side by side: scenarios=%d violated=%d" % (len(rs["scenarios"]), len(bad)))
+
+
 def run(ctx):
     thorough = ctx.tier == "thorough"
     files = coq_files()
@@ -204,6 +273,9 @@ def run(ctx):
                       nofail=True)
 
     # ---- harness
+    # ---- second sentence of the property: engine confinement tied to the code (see part_C02_engine.py)
+    engine_part(ctx, thorough, all_pa)
+
     fbin, out1 = ctx.harness_build("formats")
     binp, out2 = ctx.harness_build("fuzzextract")
     if binp is None or fbin is None:
@@ -224,6 +296,32 @@ def run(ctx):
         if f.endswith(".v"):
             os.remove(os.path.join(c03dir, f))
     timeout_s = 10 if thorough else 3
+
+    # ---- regression corpus (run first): witnesses of findings fixed in /repo must no longer crash or hang
+    fixed_entries = []
+    try:
+        fixed_entries = [e for e in json.load(open(os.path.join(vlib.VERIF, "KNOWN_FINDINGS.d", "C02.json"))) if e.get("status") == "fixed"]
+    except FileNotFoundError:
+        pass
+    rjobs = [(e, i, w) for e in fixed_entries for i, w in enumerate(_witnesses(e))]
+
+    def rone(job):
+        e, i, w = job
+        kind, top, outp = replay_case(binp, witness_case(w), timeout_s, d, "fixed_%s_%d" % (e["id"], i))
+        return e, i, w, kind, top, outp
+
+    regression_status = {}
+    with ThreadPoolExecutor(max_workers=8) as ex:
+        for e, i, w, kind, top, outp in ex.map(rone, rjobs):
+            bad = kind in ("panic", "timeout", "worker_death", "harness_error")
+            regression_status.setdefault(e["id"], []).append({"witness": i, "extractor": w["extractor"], "observed": kind,
+                                                              "fix_commit": e.get("fix_commit"), "ok": not bad})
+            if bad:
+                ctx.violation({"kind": "regression-of-fixed-finding", "finding": e["id"], "fix_commit": e.get("fix_commit"), "witness_index": i,
+                               "case": witness_case(w), "observed": kind, "top_frame": top, "replay_output": outp[-2500:], "timeout_s": timeout_s,
+                               "explanation": "the witness of a defect that was fixed in /repo crashes or hangs the extractor again"})
+    ctx.coverage["regression_corpus"] = regression_status
+    ctx.log("regression corpus: %d witnesses of %d fixed findings replayed" % (len(rjobs), len(fixed_entries)))
 
     # ---- known findings: replay every recorded witness (must still fail)
     known = ctx.known_findings()
@@ -344,6 +442,23 @@ def run(ctx):
 
 
 def replay(ctx, path):
+    obj = json.load(open(path))
+    if "engine_case" in obj:
+        wbin, out = ctx.harness_build("walk")
+        for label in ("engine_case", "counterfactual_case"):
+            cq, impl = eng._replay(wbin, {k: v for k, v in obj[label].items() if k != "obs"}, os.path.join(vlib.BUILD, "cases"), "replay_" + label)
+            print(label, "implementation:", json.dumps(impl))
+        F = {k: v for k, v in obj["engine_case"].items() if k != "obs"}
+        S = {k: v for k, v in obj["counterfactual_case"].items() if k != "obs"}
+        _, fo = eng._replay(wbin, F, os.path.join(vlib.BUILD, "cases"), "replay_f")
+        _, so = eng._replay(wbin, S, os.path.join(vlib.BUILD, "cases"), "replay_s")
+        print("oracle problems:", json.dumps(eng.oracle(F, S, fo, so, obj["meta"]), indent=1))
+        return 0
+    if "scenario" in obj:
+        ebin, out = ctx.harness_build("engineconf")
+        rc, out = vlib.sh([ebin, "-replay", path])
+        print(out)
+        return 0
     binp, out = ctx.harness_build("fuzzextract")
     if binp is None:
         print(out[-3000:])
